@@ -304,3 +304,89 @@ Proof.
   destruct (app_same_tail_len e1 e2 [lb0 s1; lb1 s1] [lb0 s2; lb1 s2]) as (E & Hh); [congruence|reflexivity|].
   injection Hh as A B. auto.
 Qed.
+
+(* ------------------------------------------------------------------ phase H and phase E in the same style *)
+(* look-ahead collection: the valid prefix of bytes_so_far grows by exactly the bytes consumed *)
+Lemma collect_append s p input in_off s1 p1 in1 :
+  lenN (bytes_so_far p) = 5 -> num_bytes_read p <= 5 -> in_off <= lenN input ->
+  collect_header s p input in_off = Val (s1, p1, in1) ->
+  takeN (num_bytes_read p1) (bytes_so_far p1) = takeN (num_bytes_read p) (bytes_so_far p) ++ span input in_off in1 /\
+  num_bytes_read p1 = N.min 5 (num_bytes_read p + (lenN input - in_off)) /\
+  in1 = in_off + (num_bytes_read p1 - num_bytes_read p) /\ num_bytes_written p1 = num_bytes_written p.
+Proof.
+  intros Hl Hr Hio. destruct p as [bsf nr nw]. cbn [bytes_so_far num_bytes_read num_bytes_written] in *.
+  unfold collect_header. cbn [bytes_so_far num_bytes_read num_bytes_written]. rewrite Hl.
+  destruct (N.ltb_spec nr 5) as [Hlt|Hge].
+  - unfold sub_u. replace (5 <? nr) with false by (symmetry; apply N.ltb_ge; lia).
+    replace (lenN input <? in_off) with false by (symmetry; apply N.ltb_ge; lia).
+    set (tc := N.min (5 - nr) (lenN input - in_off)).
+    assert (Htc1 : tc <= 5 - nr) by (subst tc; lia).
+    assert (Htc2 : tc <= lenN input - in_off) by (subst tc; lia).
+    destruct (subN_ok input in_off tc ltac:(lia)) as [E1 L1]. rewrite E1.
+    rewrite blitN_ok by (rewrite L1, Hl; lia).
+    unfold add_u8. rewrite (w8_small tc) by lia.
+    replace (nr + tc <? 256) with true by (symmetry; apply N.ltb_lt; lia).
+    intros H. injection H as <- <- <-. cbn [bytes_so_far num_bytes_read num_bytes_written].
+    split; [|split; [subst tc; lia|split; [lia|reflexivity]]].
+    rewrite app_assoc. rewrite takeN_app_exact.
+    + f_equal. unfold span. replace (in_off + tc - in_off) with tc by lia. reflexivity.
+    + rewrite lenN_app, lenN_takeN, L1 by lia. reflexivity.
+  - intros H. injection H as <- <- <-. cbn [bytes_so_far num_bytes_read num_bytes_written].
+    rewrite span_nil, app_nil_r. repeat split; lia.
+Qed.
+
+(* the header bytes still to be written *)
+Definition owed (p : NewStreamData) : list N :=
+  match num_bytes_written p with
+  | Some w => span (bytes_so_far p) w (num_bytes_read p)
+  | None => []
+  end.
+
+(* header emission: what the call wrote, followed by what is still owed (or, when the header is
+   complete, by the single byte taken back into the held tail), is what was owed before *)
+Lemma shift_emit_delay s p out off f :
+  lenN (bytes_so_far p) = 5 -> num_bytes_read p <= 5 -> off <= lenN out ->
+  (exists w, num_bytes_written p = Some w /\ w <= num_bytes_read p) ->
+  shift_emit s p out off = Val f ->
+  takeN off (f_out f) = takeN off out /\
+  ((f_rc f = NeedsMoreOutput /\ exists p', new_stream_pending (f_s f) = Some p' /\
+      span (f_out f) off (f_off f) ++ owed p' = owed p) \/
+   (f_rc f = Success /\ new_stream_pending (f_s f) = None /\ last_bytes_len (f_s f) = 1 /\
+      exists k, span (f_out f) off k = owed p /\ f_off f + 1 = k /\
+                (1 <= lenN (owed p) -> [lb0 (f_s f)] = span (f_out f) (f_off f) k))).
+Proof.
+  intros Hl Hr Hoo (w & Ew & Hw). destruct p as [bsf nr nw]. cbn [bytes_so_far num_bytes_read num_bytes_written] in *. subst nw.
+  unfold shift_emit, owed. cbn [bytes_so_far num_bytes_read num_bytes_written].
+  unfold sub_u. replace (lenN out <? off) with false by (symmetry; apply N.ltb_ge; lia).
+  replace (nr <? w) with false by (symmetry; apply N.ltb_ge; lia).
+  cbv zeta. set (tc := N.min (lenN out - off) (nr - w)).
+  assert (T1 : tc <= lenN out - off) by (subst tc; lia).
+  assert (T2 : tc <= nr - w) by (subst tc; lia).
+  replace (lenN bsf <? w) with false by (symmetry; apply N.ltb_ge; lia).
+  destruct (subN_ok bsf w tc ltac:(lia)) as [Es Ls]. rewrite Es.
+  rewrite blitN_ok by (rewrite Ls; lia).
+  unfold add_u8. rewrite (w8_small tc) by lia.
+  replace (w + tc <? 256) with true by (symmetry; apply N.ltb_lt; lia).
+  set (src := takeN tc (dropN w bsf)) in *.
+  assert (Hspan : span (takeN off out ++ src ++ dropN (off + lenN src) out) off (off + tc) = src).
+  { pose proof (span_blit out off src ltac:(rewrite Ls; lia)) as Hx. rewrite Ls in Hx at 2. exact Hx. }
+  assert (Hsrc : src = span bsf w (w + tc)).
+  { unfold span. replace (w + tc - w) with tc by lia. reflexivity. }
+  destruct (N.eqb_spec (w + tc) nr) as [Heq|Hne]; cbn [negb].
+  - destruct (N.ltb_spec (off + tc) 1) as [Hz|Hz]; [discriminate|].
+    set (out' := takeN off out ++ src ++ dropN (off + lenN src) out) in *.
+    assert (Lo : lenN out' = lenN out) by (subst out'; apply lenN_blit; rewrite Ls; lia).
+    rewrite (getN_byte_at out' (off + tc - 1)) by lia.
+    intros H. injection H as <-. fields. split; [apply take_blit; rewrite Ls; lia|].
+    right. repeat split.
+    exists (off + tc). split; [rewrite Hspan, Hsrc, Heq; reflexivity|]. split; [lia|].
+    intros Hpos. rewrite <- Heq, <- Hsrc in Hpos.
+    assert (tc >= 1) by (rewrite Ls in Hpos; lia).
+    remember (off + tc - 1) as j eqn:Ej. replace (off + tc) with (j + 1) by lia.
+    rewrite span_one by lia. reflexivity.
+  - intros H. injection H as <-. fields. split; [apply take_blit; rewrite Ls; lia|].
+    left. split; [reflexivity|].
+    eexists. split; [destruct (tc =? 0); destruct s; reflexivity|].
+    cbn [num_bytes_written bytes_so_far num_bytes_read].
+    rewrite Hspan, Hsrc. symmetry. apply span_split; lia.
+Qed.
